@@ -3,6 +3,7 @@ package rules
 import (
 	"fmt"
 	"go/token"
+	"go/types"
 	"strings"
 
 	. "abverif/internal/engine"
@@ -544,4 +545,101 @@ func returnsErr(e ssa.Value, i ssa.Instruction) bool {
 		}
 	}
 	return false
+}
+
+// readerVerbatim: the default body reader hands every submitted string field
+// to the modules exactly as it was submitted — the same map entry that the
+// validator's rules look at. A field that is transformed on the way (trimmed,
+// case-folded, truncated) makes the module act on a value the rules did not
+// validate and the user did not type: for passwords the stored hash then
+// verifies a different string than the one the login form submits.
+func (c *Ctx) readerVerbatim(rule string) {
+	r := c.R
+	fn := c.P.FuncOpt("(ab/defaults.HTTPBodyReader).Read")
+	if fn == nil {
+		return // default reader absent: nothing of the library to check
+	}
+	name := FuncName(fn)
+	var verbatim func(v ssa.Value, d int) bool
+	verbatim = func(v ssa.Value, d int) bool {
+		if d > 6 {
+			return false
+		}
+		switch x := v.(type) {
+		case *ssa.Lookup:
+			_, isMap := x.X.Type().Underlying().(*types.Map)
+			_, isConst := ConstStr(x.Index)
+			return isMap && isConst && !x.CommaOk
+		case *ssa.Phi:
+			for _, e := range x.Edges {
+				if e != v && !verbatim(e, d+1) {
+					return false
+				}
+			}
+			return true
+		case *ssa.UnOp:
+			// load of a local cell: whatever was stored there
+			if a, ok := x.X.(*ssa.Alloc); ok && a.Referrers() != nil {
+				n := 0
+				for _, ref := range *a.Referrers() {
+					if st, ok := ref.(*ssa.Store); ok && st.Addr == a {
+						n++
+						if !verbatim(st.Val, d+1) {
+							return false
+						}
+					}
+				}
+				return n > 0
+			}
+		case *ssa.Const:
+			return true
+		}
+		return false
+	}
+	n := 0
+	for _, b := range fn.Blocks {
+		for _, in := range b.Instrs {
+			st, ok := in.(*ssa.Store)
+			if !ok {
+				continue
+			}
+			fa, ok := st.Addr.(*ssa.FieldAddr)
+			if !ok {
+				continue
+			}
+			if bt, ok := st.Val.Type().Underlying().(*types.Basic); !ok || bt.Kind() != types.String {
+				continue
+			}
+			if _, isLocal := fa.X.(*ssa.Alloc); !isLocal {
+				continue
+			}
+			if fn := fieldName(fa); fn == "PID" || fn == "PhoneNumber" {
+				continue // identifiers: normalising them is the integrator's/reader's call, not a secret
+			}
+			n++
+			fld := Short(derefType(fa.X.Type()).String()) + "." + fieldName(fa)
+			r.Check(verbatim(st.Val, 0), rule, name, fld, posf(c, st), "the submitted map entry, unmodified", "the value handed to the modules as "+fld+" is not the submitted form field verbatim (it is computed from it): the modules act on a value that differs from what was validated and from what the other pages read for the same field")
+		}
+	}
+	if n < 6 {
+		r.Unknown(rule, name, "census", "-", sprintf("only %d secret string fields built by the reader (confirmed by hand: 11)", n))
+	}
+}
+
+// ctxUserOnly: every call the value derives from is CurrentUser/CurrentUserP,
+// which prefer the user object the firing handler attached to the request.
+// The session's own identity (CurrentUserID, GetSession) is in general a
+// different account while an event handler runs.
+func (c *Ctx) ctxUserOnly(v ssa.Value) (bool, string) {
+	isCtxUser := func(o Origin) bool {
+		return o.Kind == "call" && (strings.HasPrefix(o.Name, fnCurrentUser+"#") || strings.HasPrefix(o.Name, fnCurrentUserP+"#"))
+	}
+	os := c.Origins(v)
+	ok := HasOrigin(os, isCtxUser)
+	for _, o := range os {
+		if o.Kind == "call" && !isCtxUser(o) {
+			ok = false
+		}
+	}
+	return ok, names(os)
 }
